@@ -9,18 +9,24 @@ import tempfile
 import types
 
 LEVEL = "proof"
-RULE = ("histories of <= 8 group operations (re-open by name, add [optionally a job already executed by the caller, "
-        "optionally with max_samples / unknown keyword], run_parallel, run_sequential, rerun_failed_parallel/"
-        "sequential with replace or append, progress / list_*_jobs, adding again a sent job of the group) with <= 4 added jobs x server scripts (per HTTP "
-        "request: accept with id + status / 429 / 500; ids mostly fresh, sometimes reused), run on the real JobGroup/"
-        "RemoteJob/RPCHandler over a temporary directory under the `responses` library; streams: exhaustive short "
-        "histories over a 12-letter alphabet x fixed scripts, a corpus of past witnesses, random plain jobs, random sampler-like jobs "
-        "(job_context, delta parameters), malformed (unfilled parameters, unknown keywords, duplicate ids); every "
-        "history also runs with a re-open inserted before each launch. After every operation: outcome (returned / "
-        "exception class), memory, file content, re-opened group, the ordered sequence of requests received and of "
-        "whole-file writes, number of answers consumed and "
-        "progress/list sizes are compared with the model; re-opened vs memory are compared directly. Non-trivial: "
-        "at least one job launched and one operation after it; distinct by (operations, script).")
+RULE = ("world histories: several job groups identified by name (25 names: spaces, punctuation, characters reserved on "
+        "other file systems, dots, unicode, 180 characters, names differing by case or by characters a sanitiser would "
+        "merge), <= 10 operations among: open / re-open by name, operations on a live group (add [optionally a job "
+        "already executed by the caller, optionally with max_samples / unknown keyword], adding again a sent job of the "
+        "group, run_parallel, run_sequential, rerun_failed_parallel/sequential with replace or append, progress / "
+        "list_*_jobs, get_results, track_progress), delete_job_group / delete_all_job_groups / delete_job_groups_date; "
+        "<= 4 added jobs x server scripts (per HTTP request: accept with id + status / 429 / 500; ids mostly fresh, "
+        "sometimes reused), run on the real JobGroup/RemoteJob/RPCHandler over a temporary directory under the "
+        "`responses` library. The operation alphabet is checked against the public members of JobGroup (fails closed). "
+        "Streams: exhaustive short histories over a 14-letter alphabet x fixed scripts on a tricky name, a corpus of "
+        "past witnesses, random plain jobs, random sampler-like jobs (job_context, delta parameters), malformed "
+        "(unfilled parameters, unknown keywords, duplicate ids), several groups with near-identical names and "
+        "deletions; every history also runs with a re-open inserted before each launch. After every operation: outcome "
+        "(returned / exception class), every live object, every file, every group re-opened BY NAME in a fresh object, "
+        "list_existing(), the ordered sequence of requests received and of whole-file writes, number of answers "
+        "consumed, progress/list sizes, len/[]/name/remote_jobs are compared with the model; re-opened vs memory and "
+        "identifier uniqueness are checked directly. Non-trivial: at least one job launched and one operation after "
+        "it; distinct by (operations, script).")
 TRUSTED = ["model: coq/Model/JobGroup.v (hand-written; tied by this correspondence stream)",
            "fake cloud: harness/props/c19.py (responses callbacks, a stateless script interpreter)"]
 ASSUMPTIONS = ["every add uses a fresh RemoteJob object (one object added twice is Python aliasing, outside the model)",
@@ -29,10 +35,16 @@ ASSUMPTIONS = ["every add uses a fresh RemoteJob object (one object added twice 
                "wall-clock: every access to RemoteJob.status is more than STATUS_REFRESH_DELAY after the previous one "
                "(fake clock); a throttled refresh is the script answer 'same status'",
                "authentication tokens contain no space (JobGroup._build_remote_job splits the header on ' ')",
-               "track_progress, get_results, delete_* are not modelled"]
+               "group names are file names: no path separator, no NUL, at most 200 bytes (a name with '/' or longer than the "
+               "file-system limit is silently not saved by PersistentData.write_file, which only warns)",
+               "the fake cloud never has results (get_results returns None for every job; the cached-results path of "
+               "RemoteJob._get_results is not exercised); track_progress is called only when no job of the group was "
+               "never sent (it counts such a job as waiting for ever and would not return)",
+               "one live JobGroup object per name (two objects on the same name both write the whole file)"]
 EXPLANATION = ("Exact(m): the file is exactly the image of memory. Theorems (current code, any jobs, any script): Exact "
                "holds after every operation of every history, returning or raising. Repaired and kept as corpus "
                "regression guards: job_context lost on re-open (bf317fcd), add raising after the append (13320b52), "
+               "second refresh inside get_results not written (65ec16e2), "
                "status refreshed inside a launch loop not written (9afb11d4: one more write on leaving the loop iff "
                "the jobs differ from what was last written or read; the write sequence is compared with the model).")
 
@@ -105,6 +117,7 @@ class Env:
         self.rsps.add_callback(responses.POST, re.compile(r"https://h\d\.test/api/job$"), callback=self._create)
         self.rsps.add_callback(responses.POST, re.compile(r"https://h\d\.test/api/job/rerun/.*"), callback=self._rerun)
         self.rsps.add_callback(responses.GET, re.compile(r"https://h\d\.test/api/job/status/.*"), callback=self._status)
+        self.rsps.add_callback(responses.GET, re.compile(r"https://h\d\.test/api/job/result/.*"), callback=self._result)
         self.counter = 0
 
     def close(self):
@@ -160,6 +173,21 @@ class Env:
                     "start_time": 1001.0, "duration": 3}
             return (200, {"content-type": "application/json"}, json.dumps(body))
         return ({1: 429, 2: 500}[a[0]], {}, "")
+
+    def _result(self, request):
+        jid = request.url.rsplit("/", 1)[1]
+        self.log.append([4, self._unjid(jid)])
+        if jid == "None":
+            return (404, {}, "")
+        a = self._pop()
+        if a[0] == 0:      # the fake cloud never has results: RemoteJob raises RuntimeError, the group stores None
+            return (200, {"content-type": "application/json"}, json.dumps({"results": None}))
+        return ({1: 429, 2: 500}[a[0]], {}, "")
+
+    def clean(self):
+        d = self.JobGroup._DIR_PATH
+        for f in os.listdir(d):
+            os.remove(os.path.join(d, f))
 
     def fresh_name(self):
         self.counter += 1
@@ -254,6 +282,10 @@ def enc_op(o):
         return [3, o[1], o[2]]
     if k == "readd":
         return [5, o[1]]
+    if k == "results":
+        return [6]
+    if k == "track":
+        return [7]
     return [4]
 
 
@@ -283,6 +315,10 @@ def show_op(o):
         return f"g.rerun_failed_{'sequential(0, ' if o[1] else 'parallel('}replace_failed_jobs={bool(o[2])})"
     if k == "readd":
         return f"g.add(g[{o[1]}])  # only if g[{o[1]}] exists and was sent"
+    if k == "results":
+        return "g.get_results()"
+    if k == "track":
+        return "g.track_progress()  # only if no job of g was never sent (it would not return)"
     return ["g.progress()", "g.list_successful_jobs()", "g.list_active_jobs()", "g.list_unsuccessful_jobs()"][o[1]]
 
 
@@ -290,26 +326,80 @@ def show_answer(a):
     return f"ok(id=J{a[1]}, {ST[a[2]]})" if a[0] == 0 else ("429" if a[0] == 1 else "500")
 
 
-def show_case(ops, script):
-    return {"operations": [show_op(o) for o in ops], "server_script": [show_answer(a) for a in script]}
+# group names: an input dimension of its own (file store indexed by name)
+NAMES = ["plain_group", "sim:demo nightly", "Sim:Demo Nightly", "sim_demo nightly", "sim*demo nightly", "a.b.c", "grp.jgrp",
+         "\u00fcn\u00efcod\u00e9-\u30b0\u30eb\u30fc\u30d7", " lead and trail ", 'q"uo<te>|p?', "x" * 180, "back\\slash", "tab\there",
+         "a", "A", ".hidden", "trailing.", "semi;colon&amp", "per%cent%20", "new\nline", "~tilde$", "(paren)[brk]{brace}",
+         "sim:demo  nightly", "sim:demo nightly ", "sim:demo nightly.jgrp"]
+# world operations: ["open", n] | ["on", n, op] | ["delete", n] | ["delete_all"] | ["delete_date", all]
+# group operations (op): ["add", spec, pre, kms, kbad] | ["run", seq] | ["rerun", seq, repl] | ["progress", which]
+#                        | ["readd", k] | ["results"] | ["track"]
+# every public member of JobGroup is either an operation of the histories or observed after every operation
+OPERATIONS = {"__init__", "add", "run_parallel", "run_sequential", "rerun_failed_parallel", "rerun_failed_sequential",
+              "progress", "list_successful_jobs", "list_active_jobs", "list_unsuccessful_jobs", "get_results",
+              "track_progress", "delete_job_group", "delete_all_job_groups", "delete_job_groups_date"}
+OBSERVED = {"__len__", "__getitem__", "name", "remote_jobs", "list_unsent_jobs", "list_existing"}
+EXCLUDED = set()      # nothing: a new public member must be classified here, in OPERATIONS or in OBSERVED
 
 
-def impl_step(env, st, o):
-    """Runs one operation on the real group. Returns (exception code, value)."""
+def public_api(cls):
+    return {n for n in vars(cls) if not n.startswith("_") or n in ("__init__", "__len__", "__getitem__", "__str__",
+                                                                     "__repr__", "__iter__", "__contains__")}
+
+
+def wenc(o):
+    k = o[0]
+    if k == "open":
+        return [0, o[1]]
+    if k == "on":
+        return [1, o[1], enc_op(o[2])]
+    if k == "delete":
+        return [2, o[1]]
+    if k == "delete_all":
+        return [3]
+    return [4, o[1]]
+
+
+def wshow(o):
+    k = o[0]
+    if k == "open":
+        return f"g{o[1]} = JobGroup({NAMES[o[1]]!r})"
+    if k == "on":
+        return f"[g{o[1]}] " + show_op(o[2]).replace("g.", f"g{o[1]}.").replace("g[", f"g{o[1]}[")
+    if k == "delete":
+        return f"JobGroup.delete_job_group({NAMES[o[1]]!r}); del g{o[1]}"
+    if k == "delete_all":
+        return "JobGroup.delete_all_job_groups(); all objects dropped"
+    return f"JobGroup.delete_job_groups_date({'year 2999' if o[1] else 'year 1999'})" + ("; all objects dropped" if o[1] else "")
+
+
+def show_case(wops, script):
+    return {"operations": [wshow(o) for o in wops], "server_script": [show_answer(a) for a in script]}
+
+
+def to_world(ops, n=0):
+    """A single-group history as a world history on the name of index n."""
+    out = [["open", n]]
+    for o in ops:
+        out.append(["open", n] if o[0] == "reopen" else ["on", n, o])
+    return out
+
+
+def impl_step(env, g, o):
+    """Runs one group operation on the real group g. Returns (exception code, value)."""
     import requests
-    g = st["g"]
     k = o[0]
     val = None
+    env.dup_expected = False       # the job about to be added carries an identifier already present in the group
     try:
-        if k == "reopen":
-            st["g"] = env.JobGroup(st["name"])
-        elif k == "add":
+        if k == "add":
             job = build_job(env, o[1])
             if o[2]:
                 try:
                     job.execute_async()
                 except Exception:
                     pass
+            env.dup_expected = job.id is not None and job.id in [j._id for j in g._jobs]
             kw = {}
             if o[3]:
                 kw["max_samples"] = o[3][0]
@@ -321,12 +411,18 @@ def impl_step(env, st, o):
         elif k == "readd":
             # the same object: only for a sent job (refusal expected); an unsent one would be Python aliasing
             if o[1] < len(g._jobs) and g._jobs[o[1]].was_sent:
+                env.dup_expected = True
                 g.add(g._jobs[o[1]])
         elif k == "rerun":
             if o[1]:
                 g.rerun_failed_sequential(0, replace_failed_jobs=bool(o[2]))
             else:
                 g.rerun_failed_parallel(replace_failed_jobs=bool(o[2]))
+        elif k == "results":
+            val = g.get_results()
+        elif k == "track":
+            if not any((not j.was_sent) and j._job_status.waiting for j in g._jobs):
+                g.track_progress()
         else:
             w = o[1]
             if w == 0:
@@ -344,6 +440,30 @@ def impl_step(env, st, o):
         return 4, None
     except AssertionError:
         return 5, None
+
+
+def impl_wstep(env, hs, wo):
+    import datetime
+    k = wo[0]
+    env.dup_expected = False
+    if k == "open":
+        hs[wo[1]] = env.JobGroup(NAMES[wo[1]])
+        return 0, None
+    if k == "on":
+        if wo[1] not in hs:
+            return 0, None
+        return impl_step(env, hs[wo[1]], wo[2])
+    if k == "delete":
+        env.JobGroup.delete_job_group(NAMES[wo[1]])
+        hs.pop(wo[1], None)
+    elif k == "delete_all":
+        env.JobGroup.delete_all_job_groups()
+        hs.clear()
+    else:
+        env.JobGroup.delete_job_groups_date(datetime.datetime(2999 if wo[1] else 1999, 1, 1))
+        if wo[1]:
+            hs.clear()
+    return 0, None
 
 
 def strip_errs(jobs):
@@ -377,120 +497,164 @@ def diff_kind(mem, rel):
 
 
 def opname(o):
+    if o[0] == "on":
+        return opname(o[2])
     if o[0] == "run":
         return "run_sequential" if o[1] else "run_parallel"
     if o[0] == "rerun":
         return "rerun_failed_sequential" if o[1] else "rerun_failed_parallel"
+    if o[0] == "results":
+        return "get_results"
+    if o[0] == "track":
+        return "track_progress"
     return o[0]
 
 
-def evaluate(env, ops, script, model_out):
-    """Runs the history on the implementation, compares with the model after every operation.
-    Returns (problems, created) : problems = list of (index, signature, what, expected, observed);
-    created = {job name: first create-request body} for the re-open comparison."""
-    st = {"name": env.fresh_name()}
+# Signatures. PROPERTY-LEVEL (what the statement names): reopened-* / other-group-changed-* (disk vs memory in any field),
+# group-names-* (list_existing / re-open by name), identifier-twice-*, duplicate-identifier-accepted-*,
+# raises-where-it-must-not-*, request-differs-after-reopen-*, progress-not-a-partition.
+# CORRESPONDENCE-ONLY (model and implementation differ on something the statement does not speak about): model-* —
+# the ordered log of requests / status polls / file writes, answers consumed, white-box fields of the jobs in memory,
+# file content or re-opened group differing from the MODEL while agreeing with each other, accessor and progress values
+# differing from the model, an outcome difference other than the two above; jobgroup-public-api-not-covered.
+# When a history shows both kinds, only the property-level problems are reported.
+def evaluate(env, wops, script, model_out):
+    """Runs the world history on the implementation; compares with the model after every operation as long as both
+    agree (a first disagreement is recorded as correspondence-only and the model is no longer consulted), and checks the
+    property itself on the implementation alone after every operation of the whole history.
+    Returns (problems, created): problems = [(index, signature, what, expected, observed, correspondence_only)]."""
     env.script = [list(a) for a in script]
     env.log = []
-    problems = []
+    corr = []
+    prop = []
     created = {}
-    path = os.path.join(env.JobGroup._DIR_PATH, st["name"] + ".jgrp")
-    st["g"] = env.JobGroup(st["name"])
-    diverged = False       # only the operation that introduces a difference is reported
+    hs = {}
+    sync = True            # the model still describes the implementation
+    diverged = False       # only the operation that introduces a disk / memory difference is reported
     dup_seen = False
     script_ids = [a[1] for a in script if a[0] == 0]
+    JG = env.JobGroup
+
+    def path(n):
+        return os.path.join(JG._DIR_PATH, NAMES[n] + ".jgrp")
+
+    def lost(i, sig, what, exp, obs):
+        nonlocal sync
+        corr.append((i, sig, what, exp, obs, True))
+        sync = False
     try:
-        for i, (o, mo) in enumerate(zip(ops, model_out)):
+        for i, (o, mo) in enumerate(zip(wops, model_out)):
             env.log = []
             env.consumed = 0
-            code, val = impl_step(env, st, o)
-            g = st["g"]
-            m_out, m_mem, m_disk, m_rel, m_log, m_cons, m_dirty, m_prog, m_lists = mo
-            where = f"after `{show_op(o)}`"
-            if code != m_out:
-                sig = (f"duplicate-identifier-accepted-{opname(o)}" if m_out == 1 and code == 0
-                       else f"model-outcome-{opname(o)}")
-                problems.append((i, sig, f"outcome differs {where}",
-                                 EXC.get(m_out, "returns"), EXC.get(code, "returns")))
-                break
+            code, val = impl_wstep(env, hs, o)
+            m_out, m_log, m_cons, m_files, m_handles, m_flag = mo
+            where = f"after `{wshow(o)}`"
+            how = "raises-" + EXC[code] if code else "returns"
             for r in env.log:
                 if r[0] == 0:
                     created.setdefault(r[1][0], r[1])
-            if env.log != m_log:
-                problems.append((i, f"model-requests-{opname(o)}", f"requests received by the server / writes of the file differ {where}",
-                                 m_log, env.log))
-                break
-            if env.consumed != m_cons:
-                problems.append((i, "model-consumed", f"number of answers consumed differs {where}", m_cons, env.consumed))
-                break
-            mem = [enc_job(env, j) for j in g._jobs]
-            if mem != m_mem:
-                problems.append((i, f"model-memory-{opname(o)}", f"in-memory job list differs from the model {where}",
-                                 m_mem, mem))
-                break
-            raw = json.loads(open(path).read())
-            dk = [enc_djob(env, d) for d in raw["job_group_data"]]
-            if dk != m_disk:
-                problems.append((i, f"model-file-{opname(o)}", f"file content differs from the model {where}", m_disk, dk))
-                break
-            clock = env.clock[0]
-            g2 = env.JobGroup(st["name"])
-            env.clock[0] = clock
-            rel = [enc_job(env, j) for j in g2._jobs]
-            if rel != m_rel:
-                problems.append((i, f"model-reload-{opname(o)}", f"re-opened group differs from the model {where}", m_rel, rel))
-                break
-            if code == 0 and o[0] == "progress":
-                if o[1] == 0:
-                    u, s, ot, a = m_prog
-                    exp = {"Total": len(m_mem), "Finished": [s + ot, {"successful": s, "unsuccessful": ot}],
-                           "Unfinished": [a + u, {"sent": a, "not sent": u}]}
-                    if val != exp:
-                        problems.append((i, "model-progress", f"progress() differs from the model {where}", exp, val))
-                        break
-                    fin, unf = val["Finished"], val["Unfinished"]
-                    if not (fin[0] + unf[0] == val["Total"] == len(g._jobs) and sum(fin[1].values()) == fin[0]
-                            and sum(unf[1].values()) == unf[0]):
-                        problems.append((i, "progress-not-a-partition", f"progress() does not partition the jobs {where}",
-                                         len(g._jobs), val))
-                elif val != m_lists[o[1] - 1]:
-                    problems.append((i, "model-list", f"list size differs from the model {where}", m_lists[o[1] - 1], val))
-                    break
-            if len(g.list_unsent_jobs()) != m_lists[3]:
-                problems.append((i, "model-list-unsent", f"list_unsent_jobs differs {where}", m_lists[3], None))
-                break
-            # ---- the property itself, on the implementation alone
-            a, b = strip_errs(mem), strip_errs(rel)
-            if a != b and not diverged:
-                diverged = True
-                kind = diff_kind(a, b)
-                how = "raises-" + EXC[code] if code else "returns"
-                if kind == "job_context":
-                    sig = "reopened-job_context-lost"
-                elif kind == "length" and o[0] == "add" and code == 3:
-                    sig = "add-raises-TypeError-after-append"
+            # ---- property: a job already present by identifier cannot be added twice
+            if env.dup_expected and code != 1:
+                prop.append((i, f"duplicate-identifier-accepted-{opname(o)}", f"a job whose identifier is already in the group "
+                             f"was accepted ({how}) {where}", "ValueError", EXC.get(code, "returns"), False))
+            if sync and env.log != m_log:
+                # a different sequence of requests / writes: the script is consumed differently from here on, so a different
+                # outcome is a consequence, not a finding of its own
+                lost(i, f"model-requests-{opname(o)}", f"requests received by the server / writes of the file differ {where}", m_log, env.log)
+            if sync and code != m_out:
+                if m_out == 1 and code == 0:
+                    if not env.dup_expected:
+                        prop.append((i, f"duplicate-identifier-accepted-{opname(o)}", f"outcome differs {where}", "ValueError", "returns", False))
+                    sync = False
+                elif m_out == 0:
+                    prop.append((i, f"raises-where-it-must-not-{opname(o)}-{EXC[code]}", f"the operation raises {where}",
+                                 "returns", EXC[code], False))
+                    sync = False
                 else:
-                    sig = f"reopened-differs-{kind}-after-{opname(o)}-{how}"
-                problems.append((i, sig, f"re-opening the group by name {where} ({how}) does not give the group in memory "
-                                 f"[{kind}]; model ghost flag unsaved={m_dirty}", a, b))
-            # no identifier twice, in memory or on disk
-            for where_ids, idl in (("memory", [j[0][0] for j in mem if j[0]]), ("disk", [d[0][0] for d in dk if d[0]])):
-                if len(idl) != len(set(idl)) and len(set(script_ids)) == len(script_ids) and not dup_seen:
-                    dup_seen = True
-                    problems.append((i, f"identifier-twice-{where_ids}-after-{opname(o)}",
-                                     f"the same identifier appears twice in {where_ids} {where} (the server never issued an "
-                                     f"identifier twice)", None, idl))
-            # accepted identifiers are on disk
-            ids_mem = [j[0] for j in mem]
-            ids_dk = [d[0] for d in dk]
-            if ids_mem != ids_dk and not diverged:
+                    lost(i, f"model-outcome-{opname(o)}", f"outcome differs {where}", EXC.get(m_out, "returns"), EXC.get(code, "returns"))
+            if sync and env.consumed != m_cons:
+                lost(i, "model-consumed", f"number of answers consumed differs {where}", m_cons, env.consumed)
+            # ---- property: the directory holds exactly the groups created and not deleted
+            names = sorted(NAMES[n] for n in hs)
+            existing = sorted(JG.list_existing())
+            if existing != names and not diverged:
                 diverged = True
-                problems.append((i, f"ids-lost-{opname(o)}", f"identifiers on disk differ from memory {where}", ids_mem, ids_dk))
+                prop.append((i, f"group-names-{opname(o)}", f"JobGroup.list_existing() differs from the names of the groups created "
+                             f"and not deleted {where}", names, existing, False))
+            if sync and sorted(NAMES[f[0]] for f in m_files) != names:
+                lost(i, "model-live-objects", f"names differ from the model {where}", sorted(NAMES[f[0]] for f in m_files), names)
+            m_file = dict((f[0], f[1]) for f in m_files) if sync else {}
+            m_hand = dict((h[0], h) for h in m_handles) if sync else {}
+            for n in sorted(hs):
+                g = hs[n]
+                mem = [enc_job(env, j) for j in g._jobs]
+                try:
+                    raw = json.loads(open(path(n), encoding="utf-8").read())
+                    dk = [enc_djob(env, d) for d in raw["job_group_data"]]
+                except (OSError, ValueError):
+                    dk = None
+                clock = env.clock[0]
+                g2 = JG(NAMES[n])            # re-open BY NAME in a fresh object
+                env.clock[0] = clock
+                rel = [enc_job(env, j) for j in g2._jobs]
+                if sync:
+                    h = m_hand[n]
+                    if mem != h[1]:
+                        lost(i, f"model-memory-{opname(o)}", f"jobs of g{n} in memory differ from the model {where}", h[1], mem)
+                    elif dk != m_file.get(n):
+                        lost(i, f"model-file-{opname(o)}", f"file of group {NAMES[n]!r} differs from the model {where}", m_file.get(n), dk)
+                    elif rel != h[2]:
+                        lost(i, f"model-reload-{opname(o)}", f"group {NAMES[n]!r} re-opened by name differs from the model {where}", h[2], rel)
+                    else:
+                        acc = (len(g), [j.id for j in g.remote_jobs], g.name, len(g.list_unsent_jobs()),
+                               all(g[k] is g._jobs[k] for k in range(len(g))))
+                        exp = (len(h[1]), [None if not j[0] else f"J{j[0][0]}" for j in h[1]], NAMES[n], h[4][3], True)
+                        if acc != exp:
+                            lost(i, "model-accessors", f"len / remote_jobs / name / list_unsent_jobs / [] of g{n} differ {where}", exp, acc)
+                # ---- property: no identifier twice, in memory or on disk
+                for wh, idl in (("memory", [j[0][0] for j in mem if j[0]]), ("disk", [d[0][0] for d in (dk or []) if d[0]])):
+                    if len(idl) != len(set(idl)) and len(set(script_ids)) == len(script_ids) and not dup_seen:
+                        dup_seen = True
+                        prop.append((i, f"identifier-twice-{wh}-after-{opname(o)}", f"the same identifier appears twice in {wh} "
+                                     f"(group {NAMES[n]!r}) {where}; the server never issued an identifier twice", None, idl, False))
+                # ---- property: the group re-opened by name is the group in memory
+                a, b = strip_errs(mem), strip_errs(rel)
+                if a != b and not diverged:
+                    diverged = True
+                    kind = diff_kind(a, b)
+                    acted = o[0] == "on" and o[1] == n
+                    if kind == "job_context":
+                        sig = "reopened-job_context-lost"
+                    elif acted or o[0] == "open":
+                        sig = f"reopened-differs-{kind}-after-{opname(o)}-{how}"
+                    else:
+                        sig = f"other-group-changed-{kind}-after-{opname(o)}"
+                    prop.append((i, sig, f"re-opening {NAMES[n]!r} by name {where} ({how}) does not give the group in memory [{kind}]",
+                                 a, b, False))
+            if o[0] == "on" and code == 0 and o[1] in hs:
+                n = o[1]
+                if o[2][0] == "progress" and o[2][1] == 0:
+                    fin, unf = val["Finished"], val["Unfinished"]
+                    if not (fin[0] + unf[0] == val["Total"] == len(hs[n]._jobs) and sum(fin[1].values()) == fin[0]
+                            and sum(unf[1].values()) == unf[0]):
+                        prop.append((i, "progress-not-a-partition", f"progress() does not partition the jobs {where}",
+                                     len(hs[n]._jobs), val, False))
+                if sync:
+                    h = m_hand[n]
+                    if o[2][0] == "progress":
+                        if o[2][1] == 0:
+                            u, s_, ot, a = h[3]
+                            exp = {"Total": len(h[1]), "Finished": [s_ + ot, {"successful": s_, "unsuccessful": ot}],
+                                   "Unfinished": [a + u, {"sent": a, "not sent": u}]}
+                            if val != exp:
+                                lost(i, "model-progress", f"progress() differs from the model {where}", exp, val)
+                        elif val != h[4][o[2][1] - 1]:
+                            lost(i, "model-list", f"list size differs from the model {where}", h[4][o[2][1] - 1], val)
+                    elif o[2][0] == "results" and val != [None] * len(h[1]):
+                        lost(i, "model-results", f"get_results() differs {where}", [None] * len(h[1]), val)
     finally:
-        try:
-            os.remove(path)
-        except OSError:
-            pass
-    return problems, created
+        env.clean()
+    return (prop or corr[:1]), created
 
 
 # ------------------------------------------------------------------ generators
@@ -575,15 +739,17 @@ def gen_history(rng, stream):
             ops.append(["run", rng.chance(1, 3)])
         elif k < 11:
             ops.append(["rerun", rng.chance(1, 3), rng.chance(1, 2)])
-        else:
+        elif k < 12:
             ops.append(["progress", rng.below(4)])
+        else:
+            ops.append(rng.choice([["progress", rng.below(4)], ["results"], ["results"], ["track"]]))
     return ops, gen_script(rng, rng.rint(0, 16), dup=(stream == "malformed"))
 
 
 ALPHABET = [["add", [1, [[], [], 1], [], [], [], 0], False, [], False],
             ["add", [2, [[], [[5]], 2], [[9]], [], [], 2], True, [], False],
             ["reopen"], ["run", False], ["run", True], ["rerun", False, False], ["rerun", False, True],
-            ["rerun", True, True], ["rerun", True, False], ["progress", 0], ["readd", 0], ["readd", 1]]
+            ["rerun", True, True], ["rerun", True, False], ["progress", 0], ["readd", 0], ["readd", 1], ["results"], ["track"]]
 FIXED_SCRIPTS = [
     [[0, 10, 2], [0, 11, 3], [0, 12, 1], [0, 13, 3], [0, 14, 2], [0, 15, 4], [0, 16, 2], [0, 17, 2], [0, 18, 2], [0, 19, 2]],
     [[0, 10, 3], [2], [0, 11, 1], [0, 12, 3], [1], [0, 13, 2], [0, 14, 3], [0, 15, 2], [2]],
@@ -615,26 +781,82 @@ CORPUS = [
 ]
 
 
-def with_reopens(ops):
+# world-level corpus: every refreshing entry point after a launch, tricky names, two groups alive, deletions
+_P = lambda n, m=0: [n, [[], [], n], [], [], [], m]
+WCORPUS = [
+    # (e) repaired by 65ec16e2: second refresh of an UNKNOWN job inside get_results
+    ([["open", 0], ["on", 0, ["add", _P(1), True, [], False]], ["on", 0, ["results"]], ["open", 0], ["on", 0, ["progress", 0]]],
+     [[0, 10, 0], [0, 11, 7], [0, 12, 2], [0, 0, 0]]),
+    ([["open", 1], ["on", 1, ["add", _P(1), False, [], False]], ["on", 1, ["run", False]], ["on", 1, ["progress", 0]], ["on", 1, ["results"]]],
+     [[0, 10, 0], [0, 10, 7], [0, 10, 7], [0, 10, 3], [2]]),
+    ([["open", 1], ["on", 1, ["add", _P(1), False, [], False]], ["on", 1, ["add", _P(2), False, [], False]], ["on", 1, ["run", False]],
+      ["on", 1, ["results"]], ["open", 1], ["on", 1, ["progress", 0]]], [[0, 10, 0], [0, 11, 0], [0, 10, 2], [0, 11, 3], [0, 0, 0], [0, 0, 0]]),
+    ([["open", 1], ["on", 1, ["add", _P(1), False, [], False]], ["on", 1, ["run", False]], ["on", 1, ["track"]], ["open", 1]],
+     [[0, 10, 0], [0, 10, 1], [0, 10, 6], [0, 10, 2]]),
+    ([["open", 1], ["open", 3], ["open", 2], ["on", 1, ["add", _P(1), False, [], False]], ["on", 3, ["add", _P(2), True, [], False]],
+      ["on", 2, ["add", _P(3), False, [], False]], ["on", 1, ["run", False]], ["open", 1], ["open", 3], ["delete", 3], ["open", 2],
+      ["on", 2, ["run", True]], ["delete_date", False], ["delete", 1], ["open", 1], ["delete_date", True]],
+     [[0, 10, 0], [0, 11, 0], [0, 12, 0], [0, 12, 2]]),
+    ([["open", 9], ["on", 9, ["add", _P(1), False, [], False]], ["open", 22], ["open", 23], ["open", 24], ["on", 23, ["add", _P(2), False, [], False]],
+      ["on", 9, ["run", False]], ["open", 9], ["delete", 22], ["open", 23], ["delete_all"], ["open", 9]], [[0, 10, 0]]),
+]
+
+
+def with_reopens(wops):
     out = []
-    for o in ops:
-        if o[0] in ("run", "rerun"):
-            out.append(["reopen"])
+    for o in wops:
+        if o[0] == "on" and o[2][0] in ("run", "rerun"):
+            out.append(["open", o[1]])
         out.append(o)
     return out
 
 
-def is_nontrivial(ops):
-    for i, o in enumerate(ops):
-        if o[0] in ("run", "rerun") and i + 1 < len(ops) and any(p[0] == "add" for p in ops[:i]):
+def is_nontrivial(wops):
+    for i, o in enumerate(wops):
+        if o[0] == "on" and o[2][0] in ("run", "rerun") and i + 1 < len(wops) \
+                and any(p[0] == "on" and p[2][0] == "add" for p in wops[:i]):
             return True
     return False
+
+
+def gen_world(rng):
+    """Several groups with tricky / near-identical names alive at once, with deletions."""
+    pool = rng.shuffle(list(range(len(NAMES))))[:rng.rint(1, 3)]
+    if rng.chance(1, 2):
+        pool = rng.choice([[1, 2, 3], [1, 3, 4], [1, 22, 23], [1, 24, 3], [13, 14], [5, 6, 24]])[:rng.rint(2, 3)]
+    wops = []
+    adds = 0
+    n_ops = rng.rint(3, 10)
+    while len(wops) < n_ops:
+        n = rng.choice(pool)
+        k = rng.below(16)
+        if k < 3 or not wops:
+            wops.append(["open", n])
+        elif k < 7 and adds < 4:
+            adds += 1
+            wops.append(["on", n, ["add", plain_spec(rng, adds) if rng.chance(2, 3) else sampler_spec(rng, adds), rng.chance(1, 4), [], False]])
+            sp = wops[-1][2][1]
+            if (sp[2] == [[]]) or (sp[3] and sp[3][0][0] == []):
+                wops[-1][2][3] = [rng.rint(1, 60)]
+        elif k < 9:
+            wops.append(["on", n, ["run", rng.chance(1, 3)]])
+        elif k < 10:
+            wops.append(["on", n, ["rerun", rng.chance(1, 3), rng.chance(1, 2)]])
+        elif k < 12:
+            wops.append(["on", n, rng.choice([["progress", rng.below(4)], ["results"], ["track"], ["readd", rng.below(3)]])])
+        elif k < 14:
+            wops.append(["delete", n])
+        elif k < 15:
+            wops.append(["delete_date", rng.chance(1, 2)])
+        else:
+            wops.append(["delete_all"])
+    return wops, gen_script(rng, rng.rint(0, 12))
 
 
 def shrink(ctx, env, ops, script, sig):
     def fails(o2, s2):
         try:
-            mo = ctx.model.run([(1900, [[enc_op(o) for o in o2], s2])])[0]
+            mo = ctx.model.run([(1902, [[wenc(o) for o in o2], s2])])[0]
             pr, _ = evaluate(env, o2, s2, mo)
         except Exception:
             return None
@@ -663,6 +885,13 @@ def run(ctx):
     rng = ctx.rng
     env = Env()
     try:
+        # the operation alphabet is complete with respect to the public members of JobGroup (fails closed)
+        api = public_api(env.JobGroup)
+        if api != OPERATIONS | OBSERVED | EXCLUDED:
+            ctx.fail("jobgroup-public-api-not-covered", "public members of JobGroup that are neither operations of the "
+                     "histories nor observed nor excluded (or the converse)", {"members": sorted(api)},
+                     sorted(OPERATIONS | OBSERVED | EXCLUDED), sorted(api ^ (OPERATIONS | OBSERVED | EXCLUDED)),
+                     correspondence_only=True)
         hist = []      # (stream, ops, script)
         # exhaustive short histories
         L = 3 if ctx.quick() else 4
@@ -681,14 +910,20 @@ def run(ctx):
                     o[1][0] = n_add
                 ops.append(o)
             for sc in (FIXED_SCRIPTS if len(w) < 3 else FIXED_SCRIPTS[:2]):
-                hist.append(("exhaustive-short", ops, sc))
-        for ops, sc in CORPUS:
-            hist.append(("corpus", copy.deepcopy(ops), sc))
+                hist.append(("exhaustive-short", to_world(ops, 1), sc))
+        for k, (ops, sc) in enumerate(CORPUS):
+            hist.append(("corpus", to_world(copy.deepcopy(ops), k % len(NAMES)), sc))
+        for wops, sc in WCORPUS:
+            hist.append(("corpus", copy.deepcopy(wops), sc))
         n_ex = len(hist)
         for stream, n in (("plain", ctx.n(1200, 12000)), ("context", ctx.n(500, 5000)), ("malformed", ctx.n(500, 5000))):
             for i in range(n):
-                ops, sc = gen_history(rng.fork(f"{stream}{i}"), stream)
-                hist.append((stream, ops, sc))
+                r = rng.fork(f"{stream}{i}")
+                ops, sc = gen_history(r, stream)
+                hist.append((stream, to_world(ops, r.below(len(NAMES))), sc))
+        for i in range(ctx.n(700, 8000)):
+            wops, sc = gen_world(rng.fork(f"names{i}"))
+            hist.append(("names", wops, sc))
         # every history once more with a re-open before each launch
         pairs = []
         base_n = len(hist)
@@ -696,10 +931,10 @@ def run(ctx):
             stream, ops, sc = hist[k]
             if stream == "exhaustive-short" and not ctx.quick() and len(ops) == 4:
                 continue
-            if any(o[0] in ("run", "rerun") for o in ops):
+            if any(o[0] == "on" and o[2][0] in ("run", "rerun") for o in ops):
                 pairs.append((k, len(hist)))
                 hist.append((stream + "+reopen", with_reopens(ops), sc))
-        reqs = [(1900, [[enc_op(o) for o in ops], sc]) for _, ops, sc in hist]
+        reqs = [(1902, [[wenc(o) for o in ops], sc]) for _, ops, sc in hist]
         outs = ctx.model.run(reqs)
         ctx.log(f"{len(hist)} histories ({n_ex} exhaustive-short), model evaluated")
         reported = set()
@@ -707,26 +942,27 @@ def run(ctx):
         for k, ((stream, ops, sc), mo) in enumerate(zip(hist, outs)):
             ctx.streams[stream] = ctx.streams.get(stream, 0) + 1
             nt = is_nontrivial(ops)
-            ctx.case([[enc_op(o) for o in ops], sc], nt, show_case(ops, sc) if nt and len(ops) >= 4 else None)
+            ctx.case([[wenc(o) for o in ops], sc], nt, show_case(ops, sc) if nt and len(ops) >= 5 else None)
             for o in ops:
                 ctx.count("op." + opname(o))
             for r in mo:
                 ctx.count("outcome." + EXC.get(r[0], "returns"))
-                if r[6]:
+                if r[5]:
                     ctx.count("model.unsaved_flag")
             problems, created = evaluate(env, ops, sc, mo)
             created_all[k] = created
-            for (i, sig, what, exp, obs) in problems:
+            for (i, sig, what, exp, obs, co) in problems:
+                ctx.count("problems.correspondence-only" if co else "problems.property-level")
                 if sig in reported:
-                    ctx.fail(sig, what, show_case(ops, sc), exp, obs)
+                    ctx.fail(sig, what, show_case(ops, sc), exp, obs, correspondence_only=co)
                     continue
                 reported.add(sig)
                 so, ss, p = shrink(ctx, env, ops, sc, sig)
                 if p is None:
-                    so, ss, p = ops, sc, (i, sig, what, exp, obs)
+                    so, ss, p = ops, sc, (i, sig, what, exp, obs, co)
                 case = show_case(so, ss)
                 case["failing_operation_index"] = p[0]
-                ctx.fail(sig, p[2], case, p[3], p[4])
+                ctx.fail(sig, p[2], case, p[3], p[4], correspondence_only=co)
         # request bodies: re-opened in between vs not
         for a, b in pairs:
             ca, cb = created_all.get(a, {}), created_all.get(b, {})
@@ -748,7 +984,8 @@ def run(ctx):
         y = ctx.model.vm_crosscheck(sample, "c19")
         ctx.count("vm_compute_crosscheck", len(sample))
         if x != y:
-            ctx.fail("extraction-vs-vm_compute", "extracted runner and vm_compute disagree", {"n": len(sample)})
+            ctx.fail("extraction-vs-vm_compute", "extracted runner and vm_compute disagree", {"n": len(sample)},
+                     correspondence_only=True)
     finally:
         env.close()
 
